@@ -58,20 +58,17 @@ def obligations(tier: str, oracle: str = ORACLE) -> list[dict]:
     NOBLK = [1, 2, 3]   # get_inverse of a CircuitGate needs numerics (DaggerGate): tagged gates have none
     if tier == 'quick':
         for k in KINDS:
-            for W in (2, 3):
-                ob([k], W, 1, 120, NOBLK if k == 'inverse' else None)
-        for k in ['insert_gate', 'pop', 'replace_gate', 'fold', 'straighten', 'fold_unfold', 'batch_pop',
-                  'batch_replace', 'pop_cycle', 'replace_with_circuit', 'insert_circuit', 'pop_qudit']:
-            ob([k], 2, 2, 120, [1, 2])
+            ob([k], 3, 1, 200, NOBLK if k == 'inverse' else None)
+        for k in ['insert_gate', 'pop', 'replace_gate', 'fold', 'batch_replace', 'replace_with_circuit']:
+            ob([k], 2, 2, 200, [1, 2])
         for k in ['unfold', 'batch_unfold', 'unfold_all']:
-            ob([k], 2, 3, 120, [1, 5, 6], False)
-        for k1 in ['renumber', 'insert_qudit', 'pop_qudit']:
-            for k2 in ['pop', 'insert_gate', 'replace_gate']:
-                ob([k1, k2], 3, 1, 120, [2, 3], False)
+            ob([k], 2, 3, 200, [1, 5, 6], False)
+        for k1, k2 in (('renumber', 'pop'), ('insert_qudit', 'replace_gate'), ('pop_qudit', 'insert_gate')):
+            ob([k1, k2], 3, 1, 200, [2], False)
         # a replace that re-keys the dependency node, then a removal that deletes a cycle (3-op pre-states)
         for a0 in (0, 1):
             for q in (0, 1):
-                ob(['replace_gate', 'pop'], 2, 3, 200, [1, 2], False, {'0': a0, '1': q})
+                ob(['replace_gate', 'pop'], 2, 3, 240, [1, 2], False, {'0': a0, '1': q})
     else:
         for k in KINDS:
             for W in (1, 2, 3):
